@@ -129,10 +129,52 @@ def run(pid='C15'):
                         'premises of the statement: whole instructions, supported opcodes, wide loads followed by their second half, call kinds 0/1']
     if pid == 'C16': rep.assumptions.append('composition with the documented encoder (expected_encode), which C13 shows equivalent to the real assembler::encode for every table entry; the combine grammar is the documented-grammar assumption')
     rep.bounds = dict(opcodes=len(spec.SUPPORTED), registers='all nibbles', offsets='all 16-bit', immediates='all 32-bit (64-bit for lddw)', index='symbolic, any program length')
+    if pid == 'C16':
+        native_sequences(rep, cands)
+        rep.assumptions.append('bounded native complement for the grammar layer: every ordered pair of expressible opcodes printed on consecutive lines re-assembles to the same bytes')
     return rep.finish(cands, replay_dis)
 
 
+def native_sequences(rep, cands):
+    """bounded native complement for the part the solver cannot reach (the combine grammar layer): the per-instruction obligations compose texts one
+    instruction at a time; whether *consecutive* lines tokenise independently is decided here by enumeration - every ordered pair of
+    assembler-expressible opcodes (canonical fields, a few operand values) as a program [a, b, exit], disassembled, joined by newlines, re-assembled"""
+    d = Driver.get('dev')
+    can = []
+    for opc in spec.SUPPORTED:
+        k, i = spec.classify(opc); nm = spec.opname(opc)
+        if k in ('xadd', 'tail_call'): continue
+        if k == 'lddw': can.append((nm, ref.lddw(1, 0x1122334455667788)))
+        elif k == 'alu': can.append((nm, ref.insn(opc, 1, 2 if i['x'] else 0, 0, 0 if (i['x'] or i['op'] == 'neg') else 7)))
+        elif k == 'endian': can.append((nm, ref.insn(opc, 1, 0, 0, 32)))
+        elif k in ('ja',): can.append((nm, ref.insn(opc, 0, 0, 1, 0)))
+        elif k == 'jcond': can.append((nm, ref.insn(opc, 1, 2 if i['x'] else 0, 1, 0 if i['x'] else 7)))
+        elif k == 'call': can.append((nm, ref.insn(opc, 0, 0, 0, 3)))
+        elif k == 'exit': can.append((nm, ref.insn(opc)))
+        elif k == 'ldabs': can.append((nm, ref.insn(opc, 0, 0, 0, 4)))
+        elif k == 'ldind': can.append((nm, ref.insn(opc, 0, 3, 0, 4)))
+        elif k == 'ldx': can.append((nm, ref.insn(opc, 1, 2, 4, 0)))
+        elif k == 'st': can.append((nm, ref.insn(opc, 1, 0, -4, 9)))
+        elif k == 'stx': can.append((nm, ref.insn(opc, 1, 2, -4, 0)))
+    texts = {}
+    for nm, b in can:
+        r = d.request(dict(op='disassemble', prog=b.hex()))
+        if r.get('status') == 'ok' and r['insns']: texts[nm] = r['insns'][0]['desc']
+    n = 0; EX = ref.insn(0x95)
+    for na, ba in can:
+        for nb, bb in can:
+            if na not in texts or nb not in texts: continue
+            prog = ba + bb + EX; txt = texts[na] + '\n' + texts[nb] + '\nexit'
+            a = d.request(dict(op='assemble', text=txt)); n += 1; rep.obligations += 1
+            if a.get('status') == 'ok' and a.get('bytes') == prog.hex(): rep.discharged += 1
+            else:
+                cands.append(dict(role=f'native/sequence/{na}-then-{nb}/{"rejected" if a.get("status") != "ok" else "differs"}', detail=f'the text printed for [{na}; {nb}; exit] = {txt!r} assembles to {a.get("status")} {str(a.get("msg", a.get("bytes")))[:120]} instead of {prog.hex()}',
+                                  model=None, friendly=True, native=True))
+    rep.extra['native_sequence_pairs'] = n
+
+
 def replay_dis(c):
+    if c.get('native'): return True, 'observed natively'
     md = c.get('model')
     if md is None: return True, 'structural (decoded from the MIR)'
     slot = bytes([md['opc'], md['regbyte']]) + (md['off'] & 0xffff).to_bytes(2, 'little') + (md['imm'] & 0xffffffff).to_bytes(4, 'little')
